@@ -674,8 +674,8 @@ class GrammarGen:
             return ('override', self.term(depth))
         if r < 0.94:
             return ('overridelist', self.term(depth))
-        if self.later and r < 0.97:
-            return ('include', rng.choice(self.later))
+        if self.earlier and r < 0.97:
+            return ('include', rng.choice(self.earlier))      # `>rule` needs a rule that is already defined
         return self.term(depth)
 
     def seq(self, depth):
@@ -695,6 +695,7 @@ class GrammarGen:
         rules = []
         for i, name in enumerate(names):
             self.later = names[i + 1:]
+            self.earlier = names[:i]
             body = self.expr(0)
             if i == 0 and rng.random() < 0.7:
                 body = ('seq', [('group', body), ('eof',)]) if body[0] == 'choice' else ('seq', body[1] + [('eof',)])
@@ -835,7 +836,13 @@ def render_grammar(g) -> str:
     for name, value in g['directives']:
         out.append(f'@@{name}' if value is None else f'@@{name} :: {value}')
     if g['keywords']:
-        out.append('@@keyword :: ' + ' '.join(k if k.isalnum() else q(k) for k in g['keywords']))
+        kws = ' '.join(k if k.isalnum() else q(k) for k in g['keywords'])
+        r0 = g['rules'][0]
+        # `@@keyword :: a b` takes every following word that is not before ':' or '=': a first rule written
+        # start(..) / start[..] / start < base needs the parenthesised form
+        plain_head = not (r0['params'] or r0['kwparams'] or r0['base']) or \
+            (r0['style'] == 'colons' and not r0['kwparams'] and len(r0['params']) == 1 and not r0['base'])
+        out.append(f'@@keyword :: {kws}' if plain_head else f'@@keyword :: ({kws})')
     out.append('')
     for r in g['rules']:
         for d in r['decorators']:
@@ -1686,7 +1693,14 @@ def main():
                 'parameters, keyword parameters, decorators, based rules, includes, directives, keywords), one third plain, one third '
                 'lightly and one third heavily biased to strings starting with f{ or backslash-e-[ and containing ~ { } :, reloaded '
                 'through JSON (3 entry points), pickle and generated model source, compared on rules/directives/keywords/pretty/asjson '
-                'and on sampled sentences and their mutations. Non-trivial: more than one node / non-empty container / more than one '
+                'and on sampled sentences and their mutations. Options are drawn over their whole value space (switch-on, switch-off: '
+                'False / None / empty string, bare form) and every sentence is also rendered in option-sensitive ways (glued, other '
+                'blanks, token as prefix of a longer name, case swapped, comments inserted); the reload is also compared on the '
+                'effective Grammar.config field by field with value types; pickles are taken before the first parse and after parsing, '
+                'protocols 2-5; half of the grammars are rebuilt as Grammar(name, rules, directives=, keywords=, **settings / '
+                'config=ParserConfig(**settings)) with 1-3 random settings and pickled; 400 random ParserConfig objects (built by '
+                'init / override / hard_override / setattr, values truthy, falsy, module, class, instance) are pickled and compared '
+                'field by field. Non-trivial: more than one node / non-empty container / more than one '
                 'rule or a risky string; distinct by content hash.')
     chk.trusted += ['Python json, pickle, re; the TatSu bootstrap parser and parse engine (used to build models from grammar text and to '
                     'parse the sampled inputs on both sides of each comparison)',
